@@ -16,6 +16,9 @@ import (
 // ErrInjected is the sentinel failure.
 var ErrInjected = errors.New("simulated I/O failure")
 
+// ErrWrappedEOF is a failure whose chain contains io.EOF.
+var ErrWrappedEOF = fmt.Errorf("simulated failure: %w", io.EOF)
+
 // Chunk modes.
 const (
 	ChunkFull   = iota // as much as fits
@@ -73,8 +76,11 @@ func DrawPlan(t *core.Tape, n int, faults bool) Plan {
 		}
 		p.FailWith = t.Chance(1, 2)
 		p.Err = ErrInjected
-		if t.Chance(1, 6) {
+		switch t.Draw(8) {
+		case 1:
 			p.Err = io.ErrUnexpectedEOF
+		case 2:
+			p.Err = ErrWrappedEOF // wraps io.EOF: still a failure, only the sentinel itself means end of data
 		}
 	}
 	return p
